@@ -109,8 +109,10 @@ func (net *Net) CheckSafety(s *Shadow) string {
 				if err != nil {
 					return fmt.Sprintf("node %d decided block %d that cannot be applied: %v", k, h, err)
 				}
-				// vals in force at h are those of the pre-state
-				if err := lib.RefCommitCheck(net.Cfg.ChainID, s.State.Validators, id, h, seen); err != nil {
+				// vals in force at h are those of the pre-state; the commit the node RECORDS for its decision (handed to the
+				// next proposer, served to syncing peers, rebuilt into votes after a restart) must be, slot by slot, a
+				// commit for exactly that block id in one round
+				if err := lib.RefCommitCheckStrict(net.Cfg.ChainID, s.State.Validators, id, h, seen); err != nil {
 					return fmt.Sprintf("node %d decided block %d without a justifying commit: %v", k, h, err)
 				}
 				s.Decided[h], s.By[h] = id, k
@@ -123,7 +125,7 @@ func (net *Net) CheckSafety(s *Shadow) string {
 			if err != nil {
 				return fmt.Sprintf("shadow cannot load validators for %d: %v", h, err)
 			}
-			if err := lib.RefCommitCheck(net.Cfg.ChainID, pre, id, h, seen); err != nil {
+			if err := lib.RefCommitCheckStrict(net.Cfg.ChainID, pre, id, h, seen); err != nil {
 				return fmt.Sprintf("node %d decided block %d without a justifying commit: %v", k, h, err)
 			}
 			n.LastHeight = h
